@@ -351,7 +351,7 @@ def d6_counters(facts, rep):
     # fold_tree: decrement by RMW, return while >0, delete node, release wait node after the loop
     ft = facts.get(D1 + 'fold_tree')
     for fn in ft:
-        ops = atomics_on(fn, 'm_ref_count')
+        ops = atomics_on(fn, 'm_ref_count', kinds=('store', 'rmw', 'cas'))      # (debug builds add an assertion-only load)
         ok = bool(ops) and all(o['kind'] == 'rmw' for _, o in ops)
         rep.ob('D6', 'K1', fn, 'fold_tree decrements the node counter by an atomic RMW', ok, ', '.join(o['name'] for _, o in ops))
         rel = calls_named(fn, ('release',))
